@@ -127,7 +127,18 @@ var ids = []string{"k1", "k2", "k3"}
 // distinct secret values, so that a signature identifies the version that made it.
 var secretValues = []string{"alpha-secret-0001", "bravo-secret-000022", "charlie-secret-0333"}
 
-func rfc3339(t time.Time) string { return t.UTC().Format(time.RFC3339) }
+// stamp writes an instant for the DSL. The spelling depends on the version so
+// that equal instants are not equal strings (and not equal time.Time values):
+// k1 UTC "Z", k2 with a +01:00 zone offset, k3 with a fractional part.
+func stamp(t time.Time, version int) string {
+	switch version % 3 {
+	case 1:
+		return t.In(time.FixedZone("", 3600)).Format(time.RFC3339)
+	case 2:
+		return t.UTC().Format("2006-01-02T15:04:05.000Z07:00")
+	}
+	return t.UTC().Format(time.RFC3339)
+}
 
 func permutations(n int) [][]int {
 	var out [][]int
